@@ -232,8 +232,8 @@ def map_two_pass(ctx, P, scope, rule="MAP-TWO-PASS", tus=None):
     ctx.rule(rule, "an id map (`M[k] = new id of row k`) is complete before it is consulted at a stored reference: no loop both "
                    "fills M at its own counter (`M[k] = ...`) and reads M at an index loaded from a table row (`M[row.parent]`, "
                    "`M[ind.parents[j]]`): a reference to a LATER row would be translated with a stale entry.  Filling and remapping "
-                   "are separate passes; the one single-pass use confirmed by reading relies on a sortedness requirement and is "
-                   "frozen with its reason")
+                   "are separate passes.  A remap pass (`A[k] = M[A[k]]`) starts at row 0 or at a position fixed before any scan "
+                   "(rows appended by this call), never at a position discovered by an earlier loop")
     n = 0
     for key in (tus or LIB_TUS):
         tu = P.tus[key]
@@ -253,6 +253,31 @@ def map_two_pass(ctx, P, scope, rule="MAP-TWO-PASS", tus=None):
                         l = strip(x.kids[0])
                         if l is not None and l.k == "ArraySubscriptExpr" and estr(l.kids[1]) == k:
                             writes.setdefault(estr(l.kids[0]), x)
+                # a remap pass `A[k] = M[...]` must visit every row
+                for x in walk(body):
+                    if x.k == "BinaryOperator" and x.op == "=":
+                        l, r = strip(x.kids[0]), strip(x.kids[1])
+                        if l is not None and r is not None and l.k == "ArraySubscriptExpr" and estr(l.kids[1]) == k \
+                                and r.k == "ArraySubscriptExpr" and re.search(r"map", estr(r.kids[0])) and not re.search(r"map", estr(l.kids[0])):
+                            init = strip(lp.kids[0]) if lp.kids[0] is not None else None
+                            start = init.kids[1] if init is not None and init.k == "BinaryOperator" and init.op == "=" else None
+                            from sa.expr import const_int as _ci
+                            ok0 = start is not None and _ci(start) == 0
+                            if start is not None and not ok0:
+                                # a start that is fixed before any scan (a parameter, a saved row count) is a documented suffix;
+                                # a start discovered by an earlier loop is a "skip the unchanged prefix" shortcut
+                                in_loops = set()
+                                for q in walk(fn.body):
+                                    if q.k in ("ForStmt", "WhileStmt", "DoStmt") and q is not lp:
+                                        for y in walk(q.kids[-1] if q.k != "DoStmt" else q.kids[0]):
+                                            if y.k == "BinaryOperator" and y.op == "=" and strip(y.kids[0]) is not None and strip(y.kids[0]).k == "DeclRefExpr":
+                                                in_loops.add(strip(y.kids[0]).ref)
+                                ok0 = not any(y.k == "DeclRefExpr" and y.ref in in_loops for y in walk(start))
+                            n += 1
+                            ctx.ob(rule, "%s|remap|%s" % (fn.name, estr(l.kids[0])), ok0, tu.loc(lp),
+                                   "remap pass `%s` starts at row 0 or at a position fixed before any scan" % estr(x)[:70] if ok0 else
+                                   "remap pass `%s` starts at `%s`, not at row 0: references held by the skipped rows keep their old ids"
+                                   % (estr(x)[:60], estr(start) if start is not None else "?"))
                 if not writes:
                     continue
                 # locals assigned in the loop from a table row (`parent_ind = ind.parents[j]`)
@@ -402,13 +427,17 @@ FLAG_EQ_OK = {("kastore_put", "(flags != 0)"), ("kastore_put", "(flags != KAS_BO
 
 def width_and_flags(ctx, P, scope, rule="C-WIDTH", tus=None):
     ctx.rule(rule, "coordinates, times and sort keys keep double precision and option words are tested bitwise: no struct of the "
-                   "library has a `float` member, no expression is cast to float, and a flags / options word is never compared for "
+                   "library has a `float` member, no expression is cast to float explicitly or implicitly (double argument to truncf / floorf / ..., float destination), and a flags / options word is never compared for "
                    "equality with 0 or with a single flag (other bits such as ownership flags are routinely set) outside the frozen "
                    "argument checks of kastore_put")
     n = 0
     for key in (tus or LIB_TUS + ["kastore"]):
         tu = P.tus[key]
         for sname, fields in tu.structs.items():
+            if "@0x" in sname and any(o is fields or o == fields for on, o in tu.structs.items() if "@0x" not in on):
+                continue        # the anonymous struct behind a typedef: reported under the typedef's name
+            if "@0x" in sname:
+                sname = "anon{%s}" % ",".join(f for f, _, _ in fields)[:60]
             for f, ty, d in fields:
                 if re.search(r"\bfloat\b", ty or ""):
                     if key == "kastore":
@@ -421,9 +450,12 @@ def width_and_flags(ctx, P, scope, rule="C-WIDTH", tus=None):
             for x in walk(fn.body):
                 if x.k == "CStyleCastExpr" and (x.ty or "") == "float":
                     bad = (x, "`%s` is cast to float" % estr(x.kids[-1])[:60])
+                if x.k == "ImplicitCastExpr" and x.cast == "FloatingCast" and (x.ty or "") == "float":
+                    bad = (x, "`%s` is implicitly narrowed from double to float (a float-variant function such as truncf, or a float "
+                              "destination)" % estr(x.kids[-1])[:60])
                 if x.k == "BinaryOperator" and x.op in ("==", "!="):
                     l, r = estr(x.kids[0]), estr(x.kids[1])
-                    if re.search(r"(^|->|\.)(flags|options)$", l) and r != "NULL" and not re.search(r"\bNULL\b", r) \
+                    if re.search(r"(^|->|\.)(flags|options)(\[[^\]]*\])?$", l) and r != "NULL" and not re.search(r"\bNULL\b", r) \
                             and "*" not in (strip(x.kids[0]).ty or "") and (fn.name, estr(x)) not in FLAG_EQ_OK:
                         bad = (x, "`%s`: an option word compared for equality instead of tested with &" % estr(x)[:70])
             n += 1
